@@ -2,6 +2,7 @@ import Driver.Proto
 import Driver.Smtp
 import Ibx.Model.LuaGlue
 import Ibx.Model.Pool
+import Ibx.Model.LuaAfter
 /-
   mode "lua":
     run <all fields of mode "smtp" except the hook tables> lmail=<h> lrcpt=<h> lstored=<h>
@@ -12,6 +13,12 @@ import Ibx.Model.Pool
         answer: as mode "smtp".
     pool <op> …     one schedule of the state pool from the empty pool:  g<t>:<d>  u<t>:<d>  p<t> (putClear;putAppend)  l<t>  f
         answer: per op  g<sid>/<depth>/<poolLen> | u | p<poolLen> | l | f<poolLen> | x (not enabled);  then pool=<sids,top first> closed=<sids>
+    after v=<detached|shared> slots=<stored><deleted> heap=<name~address;…> ev=<mailbox~id~frm~to~date~subject~size> prog=<op;…>
+        ONE call of an after-handler (Model.LuaAfter.afterCall).  frm = `n` | ref; to = `_` | `n`/ref joined by ','.
+        ops:    g~<t>~<field>  ga~<addr>~<field>  sl~<key>  s~<t>~<field>~<val>  sa~<addr>~<field>~<val>  r  q        (t = m | f)
+        addr:   F<t>  T<t><i>  N<name>/<address>
+        val:    nil  b0  b1  i<n>  s<hex>  a<addr>  S<t>  fn  t<item,…>       item: a<addr> i<n> s<hex> b0 b1 S<t> tb
+        answer: obs=<nil | s<hex> | i<int> | u | t<n> | f, …> st=<ok|err> from=<name>/<address>|nil to=<…,…> (the EVENT's objects afterwards)
 -/
 namespace Driver.LuaMode
 open Ibx Ibx.Model Ibx.Model.Smtp Ibx.Model.LuaGlue Driver Driver.SmtpMode
@@ -127,9 +134,108 @@ def poolRun (ops : List String) : String :=
   let closed := (List.range st.next).filter (fun s => st.closed s)
   " ".intercalate outs.reverse ++ s!" pool={natsStr st.pool} closed={natsStr closed}"
 
+/-! one call of an after-handler -/
+namespace After
+open Ibx.Model.LuaAfter
+
+def tgtOf : Char → Option Tgt
+  | 'm' => some .msg
+  | 'f' => some .fresh
+  | _ => none
+
+def addrExprOf (s : String) : Option AddrExpr :=
+  match s.toList with
+  | 'F' :: [t] => (tgtOf t).map .frm
+  | 'T' :: t :: i => do let t ← tgtOf t; let i ← (String.ofList i).toNat?; pure (.to t i)
+  | 'N' :: r =>
+    match (String.ofList r).splitOn "/" with
+    | [n, a] => do let n ← Bytes.ofHex n; let a ← Bytes.ofHex a; pure (.new n a)
+    | _ => none
+  | _ => none
+
+def itemOf (s : String) : Option Item :=
+  match s.toList with
+  | ['t', 'b'] => some .tbl
+  | ['b', '0'] => some (.bool false)
+  | ['b', '1'] => some (.bool true)
+  | 'a' :: r => (addrExprOf (String.ofList r)).map .addr
+  | 'i' :: r => ((String.ofList r).toNat?).map .int
+  | 's' :: r => (Bytes.ofHex (String.ofList r)).map .str
+  | 'S' :: [t] => (tgtOf t).map .self
+  | _ => none
+
+def valOf (s : String) : Option Val :=
+  match s.toList with
+  | ['n', 'i', 'l'] => some .nil
+  | ['f', 'n'] => some .func
+  | ['b', '0'] => some (.bool false)
+  | ['b', '1'] => some (.bool true)
+  | 'a' :: r => (addrExprOf (String.ofList r)).map .addr
+  | 'i' :: r => ((String.ofList r).toNat?).map .int
+  | 's' :: r => (Bytes.ofHex (String.ofList r)).map .str
+  | 'S' :: [t] => (tgtOf t).map .self
+  | 't' :: r => if r.isEmpty then some (.tbl []) else ((String.ofList r).splitOn ",").mapM itemOf |>.map .tbl
+  | _ => none
+
+def tgtS (s : String) : Option Tgt := match s.toList with | [c] => tgtOf c | _ => none
+
+def opOf : List String → Option Op
+  | ["g", t, f] => do let t ← tgtS t; let f ← Bytes.ofHex f; pure (.get t f)
+  | ["ga", a, f] => do let a ← addrExprOf a; let f ← Bytes.ofHex f; pure (.getAddr a f)
+  | ["sl", k] => (Bytes.ofHex k).map .slot
+  | ["s", t, f, v] => do let t ← tgtS t; let f ← Bytes.ofHex f; let v ← valOf v; pure (.set t f v)
+  | ["sa", a, f, v] => do let a ← addrExprOf a; let f ← Bytes.ofHex f; let v ← valOf v; pure (.setAddr a f v)
+  | ["r"] => some .raise
+  | ["q"] => some .ret
+  | _ => none
+
+def refOf (s : String) : Option (Option Ref) := if s == "n" then some none else s.toNat?.map some
+
+def metaOf : List String → Option Meta
+  | [mb, id, frm, to, date, subj, size] => do
+    let mb ← Bytes.ofHex mb; let id ← Bytes.ofHex id; let frm ← refOf frm
+    let to ← if to == "_" then some [] else (to.splitOn ",").mapM refOf
+    let date ← date.toInt?; let subj ← Bytes.ofHex subj; let size ← size.toInt?
+    pure { mailbox := mb, id := id, frm := frm, to := to, date := date, subject := subj, size := size }
+  | _ => none
+
+def heapOf (s : String) : Option Heap :=
+  (table s).mapM (fun r => match r with
+    | [n, a] => do let n ← Bytes.ofHex n; let a ← Bytes.ofHex a; pure (⟨n, a⟩ : Addr)
+    | _ => none)
+
+def showObs : Obs → String
+  | .nil => "nil"
+  | .str s => "s" ++ Bytes.toHex s
+  | .int n => s!"i{n}"
+  | .addr => "u"
+  | .tbl n => s!"t{n}"
+  | .func => "f"
+
+def showAddr : Option Addr → String
+  | none => "nil"
+  | some a => Bytes.toHex a.name ++ "/" ++ Bytes.toHex a.address
+
+def joinOr (l : List String) : String := if l.isEmpty then "_" else ",".intercalate l
+
+def runOp (kv : KV) : String :=
+  let sh := AddrSharing.ofString ((kv.get? "v").getD "?")
+  match (kv.get? "heap") >>= heapOf, ((kv.get? "ev").map (·.splitOn "~")) >>= metaOf,
+        ((kv.get? "prog").map table) >>= (·.mapM opOf), (kv.get? "slots").map String.toList with
+  | some h, some ev, some p, some [s1, s2] =>
+    if sh = .unknown then "bad-op" else
+    let env : LuaAfter.Env := { stored := s1 == '1', deleted := s2 == '1' }
+    let (h', c) := afterCall sh env p h ev
+    let v := view h' ev
+    s!"obs={joinOr (c.obs.map showObs)} st={match c.status with | .ok => "ok" | .error => "err"} from={showAddr v.frm} to={joinOr (v.to.map showAddr)}"
+  | _, _, _, _ => "bad-op"
+
+end After
+
 def step (_ : Unit) (toks : List String) : Unit × String :=
   match toks with
   | "pool" :: ops => ((), poolRun ops)
+  | "after" :: rest => ((), After.runOp (splitKV rest).2)
   | _ =>
     let (ps, kv) := splitKV toks
     match ps with
